@@ -1019,7 +1019,11 @@ class ZoneSpecifier:
             if not prev:
                 prev = transition
                 continue
-            if prev.transitionTime > transition.transitionTime:
+            # The times can only be compared if they are expressed in the same
+            # time base. The latest prior transition is shifted to the start of
+            # the ZoneMatch, which may carry an 's' or 'u' suffix.
+            if (prev.transitionTime.f == transition.transitionTime.f
+                    and prev.transitionTime > transition.transitionTime):
                 print_transitions(transitions)
                 raise Exception('Transitions not sorted')
 
